@@ -14,17 +14,20 @@ package badgerdb
 // creates) and copyBytes (a copy equals its argument).
 
 //@ func (*badgerIterator).init
+//@   vars badgerIt forward opts
 //@   trusted
 //@   option prelude=kv,kvlib
 //@   modifies H.kvi_badgerdb.badgerIterator. alloc
 //@   ensures cursor: badgerIt.c != nil && (itrev(badgerIt.c) <==> !forward) && badgerIt.forward == forward && badgerIt.key == old(badgerIt.key) && badgerIt.tx == old(badgerIt.tx)
 
 //@ func copyBytes
+//@   vars in out
 //@   trusted
 //@   pure
 //@   ensures same: result == in
 
 //@ func (*badgerIterator).Seek
+//@   vars badgerIt id k
 //@   property C10
 //@   option prelude=kv,kvlib
 //@   modifies KV.it H.kvi_badgerdb.badgerIterator. alloc
@@ -35,6 +38,7 @@ package badgerdb
 //@   ensures cursor: badgerIt.c != nil && !itrev(badgerIt.c) && (itvalid() <==> badgerIt.key != "") && (itvalid() ==> itpos() == badgerIt.key)
 
 //@ func (*badgerIterator).SeekReverse
+//@   vars badgerIt id k
 //@   property C10
 //@   option prelude=kv,kvlib
 //@   modifies KV.it H.kvi_badgerdb.badgerIterator. alloc
@@ -45,6 +49,7 @@ package badgerdb
 //@   ensures cursor: badgerIt.c != nil && itrev(badgerIt.c) && (itvalid() <==> badgerIt.key != "") && (itvalid() ==> itpos() == badgerIt.key)
 
 //@ func (*badgerIterator).Next
+//@   vars badgerIt k
 //@   property C10
 //@   option prelude=kv,kvlib
 //@   modifies KV.it H.kvi_badgerdb.badgerIterator. alloc
@@ -58,13 +63,41 @@ package badgerdb
 //@   ensures rpos: itrev(badgerIt.c) && badgerIt.key != "" ==> kvhas(badgerIt.key) && blt(badgerIt.key, k0) && (forall j:Str :: kvhas(j) && blt(j, k0) ==> ble(j, badgerIt.key))
 
 //@ func (*badgerIterator).Valid
+//@   vars badgerIt
 //@   property C10
 //@   pure
 //@   requires nonnil: badgerIt != nil
 //@   ensures def: result <==> badgerIt.key != ""
 
 //@ func (*badgerIterator).Key
+//@   vars badgerIt
 //@   property C10
 //@   pure
 //@   requires nonnil: badgerIt != nil
 //@   ensures def: result == badgerIt.key
+
+// ---- C10/C03: DeletePrefix removes exactly the keys under the prefix ----------------------
+// The driver deletes in blocks of at most 9999 keys, one transaction per block, until a
+// pass finds nothing. On success no key with the prefix is left and every other key (and
+// every value) is as before; on failure nothing outside the prefix has changed.
+//@ func (*BadgerKV).DeletePrefix
+//@   vars badgerkv prefix deleteBlockSize found wb opts err tx it i err
+//@   property C10 C03
+//@   option prelude=kv,kvlib
+//@   modifies KV. alloc SH.Str
+//@   requires nonnil: badgerkv != nil && badgerkv.db != nil
+//@   requires defaults: !badger.DefaultIteratorOptions.Reverse
+//@   loop 1 invariant frame: (forall k:Str :: kvhas(k) ==> old(kvhas(k))) && (forall k:Str :: old(kvhas(k)) && !hasprefix(k, prefix) ==> kvhas(k)) && same(kvvals(), old(kvvals()))
+//@   loop 1 invariant done: !found ==> (forall k:Str :: kvhas(k) ==> !hasprefix(k, prefix))
+//@   loop 101 invariant frame: (forall k:Str :: kvhas(k) ==> old(kvhas(k))) && (forall k:Str :: old(kvhas(k)) && !hasprefix(k, prefix) ==> kvhas(k)) && same(kvvals(), old(kvvals()))
+//@   loop 101 invariant wb: soff(wb) == 0 && len(wb) >= 0 && sref(wb) >= 0 && sref(wb) < alloc && (forall j :: 0 <= j && j < len(wb) ==> hasprefix(wb[j], prefix))
+//@   loop 101 invariant nothing: !found
+//@   loop 101 invariant iter: itvalid() ==> kvhas(itpos()) && ble(prefix, itpos())
+//@   loop 101 invariant least: len(wb) == 0 && itvalid() ==> (forall j:Str :: kvhas(j) && ble(prefix, j) ==> ble(itpos(), j))
+//@   loop 101 invariant seen: len(wb) == 0 && !itvalid() ==> (forall k:Str :: kvhas(k) ==> !hasprefix(k, prefix))
+//@   loop 102 invariant frame: (forall k:Str :: kvhas(k) ==> old(kvhas(k))) && (forall k:Str :: old(kvhas(k)) && !hasprefix(k, prefix) ==> kvhas(k)) && same(kvvals(), old(kvvals()))
+//@   loop 102 invariant wb: soff(wb) == 0 && rangeindex < len(wb) && (forall j :: 0 <= j && j < len(wb) ==> hasprefix(wb[j], prefix))
+//@   loop 102 invariant none: len(wb) == 0 ==> (forall k:Str :: kvhas(k) ==> !hasprefix(k, prefix))
+//@   loop 102 invariant found: !found ==> rangeindex == -1
+//@   ensures ok: result == nil ==> (forall k:Str :: kvhas(k) <==> (old(kvhas(k)) && !hasprefix(k, prefix))) && same(kvvals(), old(kvvals()))
+//@   ensures fail: result != nil ==> (forall k:Str :: kvhas(k) ==> old(kvhas(k))) && (forall k:Str :: old(kvhas(k)) && !hasprefix(k, prefix) ==> kvhas(k)) && same(kvvals(), old(kvvals()))
